@@ -396,6 +396,10 @@ def optimizeLoop (b : Builder) (fb : CostMap) (limit : Int) :
       else optimizeLoop b fb limit rest (iteration + 1) maxNbr (some p) (seen ++ [p])
     else .ok (best, seen ++ [p])
 
+/-- the first test of `optimize_schedule`: the maximum schedule is returned as it is when its peak is below the SRAM limit
+    and the feature maps are in SRAM (`max_sched.fast_storage_peak_usage < self.sram_limit and not spilling`) -/
+def maxScheduleFits (maxPeak sramLimit : Int) (spilling : Bool) : Bool := decide (maxPeak < sramLimit) && !spilling
+
 def optimizeSubSchedule (b : Builder) (fb : CostMap) (limit : Int) (proposals : List CostMap) :
     Except Err (Option Proposal × List Proposal) :=
   optimizeLoop b fb limit proposals 0 0 none []
